@@ -346,7 +346,9 @@ func newLegacy(c *hk.Ctx, start int64) *legacyBE {
 func (b *legacyBE) name() string     { return "legacy-sse" }
 func (b *legacyBE) modelSrv() string { return "legacy" }
 
-func (b *legacyBE) fx() *hk.Fixture { return &hk.Fixture{URL: b.ts.URL + b.srv.SSEPath(), HC: b.hc, TS: b.ts} }
+func (b *legacyBE) fx() *hk.Fixture {
+	return &hk.Fixture{URL: b.ts.URL + b.srv.SSEPath(), HC: b.hc, TS: b.ts}
+}
 
 func (b *legacyBE) endpoint(s int) string {
 	if s >= 0 && s < len(b.eps) {
